@@ -505,6 +505,9 @@ pub struct Profile {
     pub huge_pct: u64,
     /// how many big blocks a history may still get
     pub big_blocks_left: u64,
+    /// after this many generated blocks, mine `.1` empty blocks in one go (two transaction-bearing
+    /// stretches of the chain end up more than 2^16 blocks apart)
+    pub gap: Option<(u64, u64)>,
     /// out of 100: identifiers that are long / contain quotes, backslashes, non-ASCII
     pub p_odd_ids: u64,
 }
@@ -527,6 +530,7 @@ impl Default for Profile {
             p_big_block: 0,
             huge_pct: 25,
             big_blocks_left: 3,
+            gap: None,
             p_odd_ids: 4,
         }
     }
@@ -555,6 +559,7 @@ pub struct World {
     pub base: u64,
     /// signers (by index) that have a transaction waiting for a predecessor
     pub owed: Vec<(usize, u64)>,
+    pub blocks_made: u64,
 }
 
 impl World {
@@ -587,6 +592,7 @@ impl World {
             probe_base: 0x1000,
             base: 0,
             owed: Vec::new(),
+            blocks_made: 0,
         }
     }
 
@@ -923,6 +929,14 @@ impl World {
             }
             d.exec(Op::Init { hash, ts: self.ts, height: self.base });
             return;
+        }
+        self.blocks_made += 1;
+        if let Some((after, n)) = self.profile.gap {
+            if self.blocks_made == after + 1 && d.ntx == 0 {
+                self.ts += 10;
+                d.exec(Op::Mine { n, ts: self.ts });
+                return;
+            }
         }
         if self.profile.p_big_block > 0 && self.profile.big_blocks_left > 0 && !self.tools.is_empty() && self.rng.chance(self.profile.p_big_block, 100) {
             self.profile.big_blocks_left -= 1;
